@@ -116,3 +116,18 @@ func TestEnumTriple(t *testing.T) {
 		fmt.Println(v.Message)
 	}
 }
+
+func TestRespReplay(t *testing.T) {
+	if os.Getenv("VERIF_DEBUG") == "" {
+		t.Skip()
+	}
+	x := mc.NewCellForDebug(t)
+	ops := []int{respIdx("restart-request-arrives"), respIdx("peer-cancels")}
+	c := &mc.Chooser{}
+	debugFullStacks = true
+	c20RespBody(x, ops, "dbg", "dbg")(c)
+	for _, v := range x.Violations {
+		fmt.Println(v.Signature)
+		fmt.Println(v.Message)
+	}
+}
